@@ -5,6 +5,7 @@ from __future__ import annotations
 import enum
 import hashlib
 import inspect
+import os
 import time
 import traceback
 
@@ -107,7 +108,13 @@ def concretize(m, v):
     if isinstance(v, SSeq):
         n = ev(V.T(v.n)).as_long()
         n = max(0, min(n, 400))
-        return SList([concretize(m, v.elem.wrap(ev(z3.Select(v.arr, i)))) for i in range(n)])
+        out = []
+        for i in range(n):
+            try:
+                out.append(concretize(m, v.elem.wrap(ev(z3.Select(v.arr, i)))))
+            except EngineError:
+                out.append(('<invalid>', str(ev(z3.Select(v.arr, i)))))
+        return SList(out)
     if isinstance(v, SVec):
         return SVec([concretize(m, x) for x in v.slots], v.dtype)
     if isinstance(v, tuple):
@@ -186,6 +193,8 @@ class Verifier:
             except PyRaise as e:
                 res.engine_error = f'uncaught {e}'
             except Exception as e:  # engine bug
+                if os.environ.get('PYVC_TRACE'):
+                    traceback.print_exc()
                 res.engine_error = 'internal: ' + ''.join(
                     traceback.format_exception_only(type(e), e)).strip() + ' @ ' + \
                     traceback.format_exc().splitlines()[-3].strip()
@@ -232,6 +241,16 @@ class Verifier:
                 else:
                     raise EngineError(f'{c.qualname}: no shape for parameter {pname}')
             ns = dict(bound)
+            if c.split:
+                sv = bound[c.split]
+                if V.is_card(sv) and isinstance(sv, SObj):
+                    rk, st = V.T(sv.fields['rank']), V.T(sv.fields['suit'])
+                    combos = [(r, s_) for s_ in range(1, 5) for r in range(2, 15)]
+                    ctx.split = ([rk, st], combos,
+                                 z3.And(rk >= 2, rk <= 14, st >= 1, st <= 4))
+                elif isinstance(sv, SEnum):
+                    codes = list(EnumInfo.of(sv.cls).codes)
+                    ctx.split = ([sv.t], [(k,) for k in codes], z3.Or([sv.t == k for k in codes]))
             if cc is not None and cc.inv is not None and not c.is_init and c.assume_inv \
                     and 'self' in bound:
                 ctx.assume(it.truth(calls.run_inv(it, cc, bound['self'])))
@@ -255,9 +274,10 @@ class Verifier:
                 for name, efn in c.ensures:
                     ctx.oblige(f'{short}/post/{name}', it.truth(calls.eval_clause(it, efn, ns)),
                                where=short)
-                if c.functional:
+                if c.result_fn is not None:
                     spec_val = calls.eval_clause(it, c.result_fn, ns_old)
                     ctx.oblige(f'{short}/post/result', it.eq(result, spec_val), where=short)
+                ctx.oblige(f'{short}/frame', calls.frame_condition(it, c, bound, old), where=short)
                 for exc, (kind, cfn) in c.raises.items():
                     if kind == 'iff' and cfn is not None:
                         ctx.oblige(f'{short}/noexc/{exc.__name__}',
@@ -294,6 +314,9 @@ class Verifier:
                         ctx.oblige(f'{short}/exc/{decl.__name__}',
                                    it.truth(calls.eval_clause(it, cfn, ns_old)), where=short)
                     ns['exc'] = e.cls
+                    if not c.exc_havoc:
+                        ctx.oblige(f'{short}/excframe', calls.frame_condition(it, c, bound, old),
+                                   where=short)
                     for name, efn in c.exc_ensures:
                         ctx.oblige(f'{short}/excpost/{name}',
                                    it.truth(calls.eval_clause(it, efn, ns)), where=short)
@@ -304,6 +327,9 @@ class Verifier:
                                    where=short)
 
         self.explore(res, run_path)
+        if not res.engine_error and res.exits.get('return', 0) == 0 and \
+                not getattr(c.spec_cls, 'never_returns', False):
+            res.engine_error = 'vacuity: no normal exit is reachable under the contract'
         for name, _ in c.covers:
             if not res.engine_error and res.exits.get(f'cover:{name}', 0) == 0:
                 res.engine_error = f'vacuity: cover {name!r} is unreachable under the contract'
